@@ -363,6 +363,171 @@ def runEdgeWith (c : Config α) (runV : Nat → Option Nat → Except ErrKind (A
               | .error k => .error k
               | .ok routes => .ok { trees := r.trees, routes := routes, iterations := r.iterations + 2 }
 
+/-! ### Yen's algorithm (`yens_algorithm::run`) -/
+
+/-- what a k-shortest-paths call does: return a result, return an error, or not return at all -/
+inductive KspOutcome (α : Type) where
+  | ok (r : AlgResult α)
+  | err (e : ErrKind)
+  /-- the code does not return: `underflow` — `0..len - 2` wrapped to ~2^64 turns on a route of one
+  edge (every turn may push another copy of the best candidate: unbounded memory); `no-progress` —
+  a turn of `while accepted.len() < k` pushed nothing, so every later turn starts from the same
+  state -/
+  | diverges (why : String)
+
+/-- loop state of `yens_algorithm::run` -/
+structure YenState (α : Type) where
+  accepted : List (List (Branch α))
+  /-- `best_candidate` (path, cost) -/
+  best : Option (List (Branch α) × α)
+  /-- `iterations`: number of underlying searches -/
+  iterations : Nat
+  /-- schedules of the `run_a_star` calls still to come -/
+  scheds : List (List Nat)
+
+/-- the similarity scan of one candidate against every accepted route (no `break`): whenever an
+accepted route is NOT similar to the candidate, the candidate replaces the best one if it is
+cheaper (or there is none yet) -/
+def yenScan (sim : List Nat → List Nat → Except ErrKind Bool) (cand : List (Branch α)) (cost : α) :
+    List (List (Branch α)) → Option (List (Branch α) × α) →
+      Except ErrKind (Option (List (Branch α) × α))
+  | [], best => .ok best
+  | t :: rest, best =>
+    match sim (t.map (·.edge)) (cand.map (·.edge)) with
+    | .error k => .error k
+    | .ok similar =>
+      if similar then yenScan sim cand cost rest best
+      else
+        match best with
+        | none => yenScan sim cand cost rest (some (cand, cost))
+        | some (bp, bc) =>
+          if cost < bc then yenScan sim cand cost rest (some (cand, cost))
+          else yenScan sim cand cost rest (some (bp, bc))
+
+/-- one turn of `for spur_idx in 0..prev_accepted_path.len() - 2`.  `cf` is the forward
+configuration; the spur search runs on it with an `EdgeCutFrontierModel` wrapped around its frontier
+model, from the spur vertex, from the INITIAL state (the root path's state is not carried over). -/
+def yenSpur (cf : Config α) (sim : List Nat → List Nat → Except ErrKind Bool) (target : Nat)
+    (prev : List (Branch α)) (st : YenState α) (spurIdx : Nat) : Except ErrKind (YenState α) :=
+  let spurLen := spurIdx + 1
+  let root := prev.take spurLen
+  match root.getLast? with
+  | none => .error .internal                      -- "root path is empty"
+  | some spurEt =>
+    match cf.edges[spurEt.edge]? with
+    | none => .error .network
+    | some er =>
+      let spurVertex := er.dst
+      let cut := st.accepted.filterMap (fun p =>
+        if sameIds root (p.take spurLen) then p[spurIdx + 1]?.map (·.edge) else none)
+      let cfCut : Config α := { cf with frontier := FrontierM.edgeCut cut :: cf.frontier }
+      let (sched, scheds') := match st.scheds with
+        | [] => (([] : List Nat), ([] : List (List Nat)))
+        | s :: r => (s, r)
+      match runVertexOriented cfCut.inst spurVertex (some target) sched with
+      | .error k => .error k
+      | .ok res =>
+        match res.route with
+        | none => .error .internal                -- "no empty results should be stored in routes"
+        | some spurPath =>
+          let cand := root ++ spurPath
+          let cost := sumList (cand.map (fun b => b.access + b.traversal))
+          match yenScan sim cand cost st.accepted st.best with
+          | .error k => .error k
+          | .ok best' =>
+            .ok { accepted := (match best' with
+                               | some (bp, _) => st.accepted ++ [bp]
+                               | none => st.accepted),
+                  best := best', iterations := st.iterations + 1, scheds := scheds' }
+
+/-- the `for` loop over the given spur indices (stops at the first error, as `?` does) -/
+def yenFor (cf : Config α) (sim : List Nat → List Nat → Except ErrKind Bool) (target : Nat)
+    (prev : List (Branch α)) : List Nat → YenState α → Except ErrKind (YenState α)
+  | [], st => .ok st
+  | i :: is, st =>
+    match yenSpur cf sim target prev st i with
+    | .error k => .error k
+    | .ok st' => yenFor cf sim target prev is st'
+
+/-- `while accepted.len() < query.k { … }`.  A turn that pushes at least one route strictly
+lengthens `accepted`, so `fuel = k` turns suffice; a turn that pushes nothing is `diverges
+"no-progress"`; a previous route of fewer than two edges makes `len - 2` wrap (release build) to a
+range of about 2^64 turns: if its first turns succeed the outcome is `diverges "underflow"`. -/
+def yenWhile (cf : Config α) (sim : List Nat → List Nat → Except ErrKind Bool) (term : KspTerm)
+    (target k : Nat) (tree : Nat → Option (Branch α)) : Nat → YenState α → KspOutcome α
+  | 0, _ => .diverges "fuel"
+  | fuel + 1, st =>
+    if st.accepted.length < k then
+      if term.terminate k st.accepted.length then
+        .ok { trees := [tree], routes := st.accepted, iterations := st.iterations }
+      else
+        match st.accepted.getLast? with
+        | none => .err .internal                  -- "at least one route should be in routes"
+        | some prev =>
+          let st0 := { st with best := none }
+          if prev.length < 2 then
+            match yenFor cf sim target prev [0, 1, 2, 3] st0 with
+            | .error e => .err e
+            | .ok _ => .diverges "underflow"
+          else
+            match yenFor cf sim target prev (List.range (prev.length - 2)) st0 with
+            | .error e => .err e
+            | .ok st' =>
+              if st'.accepted.length = st.accepted.length then .diverges "no-progress"
+              else yenWhile cf sim term target k tree fuel st'
+    else .ok { trees := [tree], routes := st.accepted, iterations := st.iterations }
+
+/-- `yens_algorithm::run`; `scheds` are the schedules of the successive `run_a_star` calls -/
+def yens (c : Config α) (sim : List Nat → List Nat → Except ErrKind Bool) (term : KspTerm)
+    (source target k : Nat) (scheds : List (List Nat)) : KspOutcome α :=
+  let cf := c.fwd
+  let (sched0, rest) := match scheds with
+    | [] => (([] : List Nat), ([] : List (List Nat)))
+    | s :: r => (s, r)
+  match runVertexOriented cf.inst source (some target) sched0 with
+  | .error e => .err e
+  | .ok res =>
+    match res.route with
+    | none => .ok { trees := [], routes := [], iterations := 0 }   -- `routes.is_empty()`: default result
+    | some shortest =>
+      yenWhile cf sim term target k res.final.sol (k + 1)
+        { accepted := [shortest], best := none, iterations := 1, scheds := rest }
+
+/-- the `Yens` arm of `SearchAlgorithm::run_vertex_oriented` -/
+def yensVertex (c : Config α) (sim : List Nat → List Nat → Except ErrKind Bool)
+    (term : Option KspTerm) (kDefault : Nat) (queryK : Option Json) (source : Nat)
+    (target : Option Nat) (scheds : List (List Nat)) : KspOutcome α :=
+  match target with
+  | none => .err .build
+  | some t =>
+    match kspK queryK kDefault with
+    | .error e => .err e
+    | .ok k => yens c sim (term.getD .exact) source t k scheds
+
+/-- `run_edge_oriented` around an algorithm that may not return -/
+def runEdgeWithOutcome (c : Config α) (runV : Nat → Option Nat → KspOutcome α)
+    (source : Nat) (target : Option Nat) : KspOutcome α :=
+  -- the wrapper calls the algorithm at most once: find out whether that call returns
+  let probe : Option (KspOutcome α) :=
+    match c.edges[source]? with
+    | none => none
+    | some e1 =>
+      match target with
+      | none => some (runV e1.dst none)
+      | some tgt =>
+        match c.edges[tgt]? with
+        | none => none
+        | some e2 => if source = tgt || e1.dst = e2.src then none else some (runV e1.dst (some e2.src))
+  match probe with
+  | some (.diverges why) => .diverges why
+  | _ =>
+    match runEdgeWith c (fun s t => match runV s t with
+                                   | .ok r => .ok r
+                                   | .err e => .error e
+                                   | .diverges _ => .error .internal) source target with
+    | .ok r => .ok r
+    | .error e => .err e
+
 end
 
 end Compass
